@@ -28,7 +28,7 @@ def main():
         prog = Program(root)
         for q in args:
             mod, _, name = q.partition(".")
-            m = next((m for k, m in prog.modules.items() if k.endswith(mod) or k.endswith("." + mod)), None)
+            m = next((m for k, m in prog.modules.items() if k.endswith("." + mod)), None) or next((m for k, m in prog.modules.items() if k.endswith(mod)), None)
             if m is None:
                 print("no module", mod, list(prog.modules)[:50])
                 continue
